@@ -661,6 +661,18 @@ func (it *Interp) inBatchCallback(b *Backend, e ecs.Entity) int {
 		fail("callback|"+it.cur.K+"|dead-entity", "%s step %d %v: callback entity %v is not alive", b.Name, it.Step, it.cur, e)
 	}
 	it.nested(b)
+	it.sameObjectAttempt(b)
+	if it.nestedDone == nil {
+		it.nestedDone = map[string]int{}
+	}
+	if it.M.OpenQ < 60 && it.nestedDone[b.Name+"/dump"] != it.Step {
+		// reading calls are legal on a locked world; DumpEntities runs a query of its own
+		it.nestedDone[b.Name+"/dump"] = it.Step
+		if p := try(func() { _ = b.U.DumpEntities() }); p != nil {
+			fail("panic|"+it.cur.K+"|dump-inside-callback", "%s step %d %v: DumpEntities inside a batch callback panicked: %v", b.Name, it.Step, it.cur, p)
+		}
+		it.count("dump-inside-batch-callback")
+	}
 	b.tr("callback %v", e)
 	return s
 }
@@ -1468,6 +1480,18 @@ func (b *Backend) makeFilter(m *Model, fi int) {
 	}
 	if fs.Inst < 0 {
 		uf := ecs.NewUnsafeFilter(b.W, b.ids(fs.UComps)...)
+		// "Without ... Resets previous excludes", "Exclusive ... Overwrites components set via Without": with some builder
+		// orders the filter first gets excludes that would make it match nothing (its own first component), or exclusivity
+		if len(fs.UComps) > 0 && (fs.Exclusive || len(fs.Without) > 0) {
+			switch fs.Order {
+			case 1:
+				uf = uf.Without(b.ids(fs.UComps[:1])...)
+			case 2:
+				if !fs.Exclusive {
+					uf = uf.Exclusive()
+				}
+			}
+		}
 		if fs.Exclusive {
 			uf = uf.Exclusive()
 		} else if len(fs.Without) > 0 {
@@ -1921,6 +1945,65 @@ func (it *Interp) nested(b *Backend) {
 		}
 		it.count("nested-structural-rejected")
 	}
+}
+
+// sameObjectAttempt: from inside a locking callback, a structural call with relation arguments through the very mapper
+// or exchanger object of the running operation, naming another target than the running operation does. It must be
+// rejected, and it must leave no trace: the object's scratch memory for converted relation arguments is shared with the
+// call that is still running (what the running call registers as targets, or where it puts entities, must not change).
+// Once per step and backend.
+func (it *Interp) sameObjectAttempt(b *Backend) {
+	op := it.cur
+	if op == nil || len(op.Rels) == 0 || (op.P != PMap && op.P != PEx) || b.Pol.ForceUnsafe || !b.W.IsLocked() {
+		return
+	}
+	if it.nestedDone == nil {
+		it.nestedDone = map[string]int{}
+	}
+	key := b.Name + "/same-object"
+	if it.nestedDone[key] == it.Step {
+		return
+	}
+	it.nestedDone[key] = it.Step
+	t := -1
+	for s := len(b.H) - 1; s >= 0 && t < 0; s-- {
+		h := b.H[s]
+		if h.IsZero() || !b.W.Alive(h) {
+			continue
+		}
+		t = s
+		for _, r := range op.Rels {
+			if r.T == s {
+				t = -1
+			}
+		}
+	}
+	if t < 0 {
+		return
+	}
+	rs := make([]RelSpec, len(op.Rels))
+	copy(rs, op.Rels)
+	for i := range rs {
+		rs[i].T = t
+	}
+	var p any
+	if op.P == PMap {
+		if op.M >= len(MapInsts) {
+			return
+		}
+		mp := b.Mapper(op.M)
+		p = try(func() { mp.SetRelations(b.H[t], b.rels(mp.Comps(), rs)) })
+	} else {
+		if op.M >= len(ExInsts) {
+			return
+		}
+		ex := b.Exchanger(op.M, op.Rem)
+		p = try(func() { ex.Exchange(b.H[t], make([]int64, len(ex.Comps())), b.rels(ex.Comps(), rs)) })
+	}
+	if p == nil {
+		fail("lock|"+op.K+"|same-object-attempt-accepted", "%s step %d %v: a structural call through the running operation's own mapper inside a locking callback did not panic", b.Name, it.Step, op)
+	}
+	it.count("rejected-attempt-through-the-object-of-the-running-operation")
 }
 
 // rawStructural performs a raw structural call (used for attempts that must be rejected).
